@@ -258,6 +258,53 @@ func c08r2(c *RC) {
 			return true
 		})
 		c.Check(len(bad) == 0, fmt.Sprintf("%s|namer-argument#%d", fq, nn), pr.Pos(call.Pos()), "the operator name handed to the namer "+strings.Join(bad, "; "))
+		// every op name carries the index of the invocation being compiled:
+		// names of different invocations never coincide, and names are what
+		// the workers' stores key output files by (their paths do not include
+		// TaskName.InvIndex)
+		recv := recvOf(fn)
+		invIdx := recv + ".inv.Index"
+		carries := false
+		isInvFmt := func(k *ast.CallExpr) bool {
+			if fn.Pkg.CalleeName(k) != "fmt.Sprintf" || len(k.Args) < 2 {
+				return false
+			}
+			lit, ok := k.Args[0].(*ast.BasicLit)
+			if !ok || !strings.HasPrefix(strings.Trim(lit.Value, "\"`"), "inv%d") {
+				return false
+			}
+			return strings.ReplaceAll(expr(k.Args[1]), " ", "") == invIdx
+		}
+		switch a := ast.Unparen(call.Args[0]).(type) {
+		case *ast.CallExpr:
+			switch fn.Pkg.CalleeName(a) {
+			case "fmt.Sprintf":
+				carries = isInvFmt(a)
+			case "strings.Join":
+				// the joined list starts with Sprintf("inv%d", c.inv.Index)
+				if len(a.Args) == 2 {
+					list := expr(a.Args[0])
+					first := true
+					inspectNoLit(fn.Body, func(m ast.Node) bool {
+						as, ok := m.(*ast.AssignStmt)
+						if !ok || len(as.Lhs) != 1 || len(as.Rhs) != 1 || expr(as.Lhs[0]) != list {
+							return true
+						}
+						if k, ok := as.Rhs[0].(*ast.CallExpr); ok && expr(k.Fun) == "append" && len(k.Args) == 2 && expr(k.Args[0]) == list {
+							if first {
+								if e, ok := k.Args[1].(*ast.CallExpr); ok && isInvFmt(e) {
+									carries = true
+								}
+								first = false
+							}
+						}
+						return true
+					})
+				}
+			}
+		}
+		c.Check(carries, fmt.Sprintf("%s|op-name#%d-carries-the-invocation-index", fq, nn), pr.Pos(call.Pos()),
+			"an operator name is minted without the index of the invocation being compiled: the tasks of two invocations (e.g. two Funcs that re-shuffle the same Result, possibly with different partition counts) get the same op name, the workers' stores — whose paths ignore TaskName.InvIndex — write their output to the same files, and each reads the other's partitions: rows are lost and duplicated with no error")
 		return true
 	})
 	c.Floor("namer.New calls", nn, 2)
